@@ -64,4 +64,112 @@ def Err.str : Err → String
 def Header.str (h : Header) : String :=
   s!"{h.kind} {h.priority} {h.serviceID} {h.requestID} {h.bodyLen}"
 
+
+
+/-! ## Part 2 — the PendingTable as a labelled transition system
+
+  pkg/transport/internal/rpc/pending.go.  Caller `c` owns request id `c` (ids are
+  unique per connection: conn.Call takes them from an atomic counter) and a
+  private buffered(1) channel, as conn.Call does.  One transition per atomic
+  region of the Go code:
+
+    store c            Store: under closeMu.RLock — closed? then an error send is owed (done after
+                       RUnlock, a separate `deliver`), else the entry is inserted under the shard lock
+    completeRemove i n Complete, shard-lock region: look up + delete the entry; the send is owed
+    deliver c          one `trySend` (non-blocking send to c's channel; dropped when full)
+    delete c           Delete (caller gave up: timeout / cancellation), then the caller leaves
+    recv c             the caller takes the value out of its channel
+    failBegin e        FailAll takes closeMu.Lock, records closed/closeErr (first error wins)
+    failShard          FailAll swaps one shard's map out (shard-lock region); error sends are owed
+    failEnd            FailAll releases closeMu
+
+  While a FailAll holds closeMu, `store` is disabled; Complete/Delete do not take closeMu
+  and interleave freely with the sweep, shard by shard.
+-/
+
+inductive Resp
+  | ok (tag nonce : Nat)   -- a response frame for request id `tag`
+  | err (e : Nat)          -- terminal error (FailAll's argument / closeErr)
+  deriving DecidableEq, Repr
+
+inductive PC
+  | idle | waiting | got (r : Resp) | gaveUp
+  deriving DecidableEq, Repr
+
+structure PT where
+  inTable : Nat → Bool          -- entries[c] present
+  inflight : Nat → List Resp    -- trySends owed to c's channel (entry already removed / store rejected)
+  chan : Nat → Option Resp      -- c's buffered(1) channel
+  pc : Nat → PC
+  closed : Option Nat           -- closeErr once closed
+  sweep : Option (Nat × Nat)    -- a FailAll in progress: (its error, next shard)
+  dropped : Nat → Nat           -- trySends to c that found the channel full
+
+def PT.init : PT :=
+  { inTable := fun _ => false, inflight := fun _ => [], chan := fun _ => none, pc := fun _ => .idle,
+    closed := none, sweep := none, dropped := fun _ => 0 }
+
+def upd {α : Type} (f : Nat → α) (c : Nat) (v : α) : Nat → α := fun x => if x = c then v else f x
+
+inductive Label
+  | store (c : Nat) | completeRemove (i nonce : Nat) | deliver (c : Nat) | delete (c : Nat) | recv (c : Nat)
+  | failBegin (e : Nat) | failShard | failEnd
+  deriving Repr
+
+/-- one atomic step; `none` = not enabled.  `S` = number of shards. -/
+def PT.step (S : Nat) (st : PT) : Label → Option PT
+  | .store c =>
+    if st.pc c ≠ .idle ∨ st.sweep.isSome then none else
+    match st.closed with
+    | some e => some { st with inflight := upd st.inflight c (.err e :: st.inflight c), pc := upd st.pc c .waiting }
+    | none => some { st with inTable := upd st.inTable c true, pc := upd st.pc c .waiting }
+  | .completeRemove i n =>
+    if st.inTable i then
+      some { st with inTable := upd st.inTable i false, inflight := upd st.inflight i (.ok i n :: st.inflight i) }
+    else some st
+  | .deliver c =>
+    match st.inflight c with
+    | [] => none
+    | r :: rest =>
+      match st.chan c with
+      | none => some { st with inflight := upd st.inflight c rest, chan := upd st.chan c (some r) }
+      | some _ => some { st with inflight := upd st.inflight c rest, dropped := upd st.dropped c (st.dropped c + 1) }
+  | .delete c =>
+    if st.pc c ≠ .waiting then none else
+    some { st with inTable := upd st.inTable c false, pc := upd st.pc c .gaveUp }
+  | .recv c =>
+    if st.pc c ≠ .waiting then none else
+    match st.chan c with
+    | none => none
+    | some r => some { st with chan := upd st.chan c none, pc := upd st.pc c (.got r) }
+  | .failBegin e =>
+    if st.sweep.isSome then none else
+    some { st with closed := (match st.closed with | some e0 => some e0 | none => some e), sweep := some (e, 0) }
+  | .failShard =>
+    match st.sweep with
+    | none => none
+    | some (e, s) =>
+      if s ≥ S then none else
+      some { st with
+        inTable := fun c => st.inTable c && !(c % S == s),
+        inflight := fun c => if st.inTable c && (c % S == s) then .err e :: st.inflight c else st.inflight c,
+        sweep := some (e, s + 1) }
+  | .failEnd =>
+    match st.sweep with
+    | some (_, s) => if s = S then some { st with sweep := none } else none
+    | none => none
+
+/-- states reachable by any number of callers under any interleaving -/
+inductive Reachable (S : Nat) : PT → Prop
+  | init : Reachable S PT.init
+  | step {st st' : PT} (l : Label) : Reachable S st → st.step S l = some st' → Reachable S st'
+
+/-- number of responses that exist for caller `c` and have not been received yet -/
+def PT.cnt (st : PT) (c : Nat) : Nat :=
+  (if st.inTable c then 1 else 0) + (st.inflight c).length + (if (st.chan c).isSome then 1 else 0)
+
+def tagOK (c : Nat) : Resp → Prop
+  | .ok t _ => t = c
+  | .err _ => True
+
 end WK.C26
